@@ -1,6 +1,7 @@
 import TdVerif.Sexp
 import TdVerif.Model.C08Lazy
 import TdVerif.Model.C08Lazy2
+import TdVerif.Model.C08Lazy2T
 import TdVerif.Model.C08Apply
 import TdVerif.Model.C08Reduce
 import TdVerif.Model.C08Resize
@@ -371,7 +372,7 @@ def handleC08 (cmd : String) (args : List Sexp) : Option Sexp :=
       let feats ← featsOf? feats
       let ix ← ixsOf? ix
       let L2 : Lazy2 Int := ⟨(List.range nout).map fun j => mkOperand bs nin sdin feats j, sdout⟩
-      pure (res2ToSexp (lazyGet2 L2 ix))
+      pure (res2ToSexp (lazyGet2T L2 ix))
   -- (c08.set2 (bs ..) n_in n_out sd_in sd_out (feats ..) (ix ..)) : the dense stack of stacks after `lazy_of_lazy[ix] = value`
   | "c08.set2", [bs, nin, nout, sdin, sdout, feats, ix] => do
       let bs ← shapeOf? bs
